@@ -61,8 +61,18 @@ Proof.
         destruct (_ =? _); [destruct H|]. destruct (negb _); [destruct H as [<-|[]]; unfold L_unitname; lia|].
         destruct (negb _); destruct H as [<-|[]]; unfold L_unitdisp, L_unitobj; lia.
       * unfold cmp_phys in H. destruct p1, p2; try destruct H. apply in_when in H as [_ ->]. unfold L_phys. lia.
-    + unfold cmp_extra in H. destruct e1 as [a|[a|]|], e2 as [b|[b|]|]; try destruct H;
+    + unfold cmp_extra in H. destruct e1 as [a|a|], e2 as [b|b|]; try (now destruct H);
         apply in_when in H as [_ ->]; unfold L_const, L_default; lia.
+Qed.
+
+(* the default value of a VALUE parameter is reported exactly when it differs -- a default which appears or disappears
+   included (since the fix commit "the compare tool did not report a default value which was added or removed") *)
+Theorem default_reported_iff_differs a b : In L_default (cmp_extra (XValue a) (XValue b)) <-> a <> b.
+Proof.
+  cbn [cmp_extra]. rewrite in_when. split.
+  - intros [H _] ->. apply negb_true_iff in H. now rewrite (proj2 (oZ_eqb_eq b b) eq_refl) in H.
+  - intros H. split; [|reflexivity]. apply negb_true_iff. destruct (oZ_eqb a b) eqn:E; [|reflexivity].
+    apply oZ_eqb_eq in E. contradiction.
 Qed.
 
 Lemma cmp_tail_labels p1 p2 x : In x (cmp_tail p1 p2) -> 6 <= x <= 17.
@@ -129,7 +139,7 @@ Proof.
   replace (oZ_eqb bp bp) with true by (symmetry; now apply oZ_eqb_eq).
   cbn [negb when app cmp_kind].
   assert (X : forall x, In x (cmp_extra e1 e2) -> x = L_const \/ x = L_default).
-  { intros x H. unfold cmp_extra in H. destruct e1 as [a|[a|]|], e2 as [c|[c|]|]; try destruct H;
+  { intros x H. unfold cmp_extra in H. destruct e1 as [a|a|], e2 as [c|c|]; try (now destruct H);
       apply in_when in H as [_ ->]; auto. }
   destruct ((i1 =? i2) && unit_same u1 u2) eqn:E.
   - apply andb_true_iff in E as [E1 E2]. apply Z.eqb_eq in E1. split.
